@@ -9,9 +9,8 @@ From MV Require Import Cfg.CfgSrcPrelude Gen.ConfigSrc Cfg.CfgSrcProofs.
 Import ListNotations.
 Open Scope N_scope.
 
+From MV Require Import Cfg.CfgTableProofs.
 (* the environment of the real table: the extension names of check_extensions, any importlib *)
-Definition E_of (imp : str -> import_result) : env :=
-  {| e_known_ext := known_extensions; e_import := imp |}.
 
 (* for every documented type, the validator tree built from the combinators (and the custom
    validators) accepts exactly the values of that type *)
@@ -25,23 +24,14 @@ Print Assumptions C13_combinators_sound_complete.
 Theorem C13_fields_match_types : forall imp f, In f fields ->
   exists t, doc_ty f = Some t /\
             forall v, accepts (E_of imp) (f_val f) v = true <-> has_type (E_of imp) v t.
-Proof.
-  intros imp f Hin. apply field_ok_sound.
-  assert (E : forallb field_ok fields = true) by (vm_compute; reflexivity).
-  rewrite forallb_forall in E. apply E. exact Hin.
-Qed.
+Proof. exact C13_fields_match_types_proof. Qed.
 Print Assumptions C13_fields_match_types.
 
 (* accepted values are stored in a canonical form: validating the stored value again yields the
    same value (for every field of the table) *)
 Theorem C13_normal_form : forall imp f v co, In f fields ->
   validate (E_of imp) (f_val f) v = Ok co -> stable (E_of imp) (f_val f) (coerced co v).
-Proof.
-  intros imp f v co Hin H. apply validated_is_stable; [|exact H].
-  assert (E : table_ok fields = true) by (vm_compute; reflexivity).
-  unfold table_ok in E. rewrite forallb_forall in E. specialize (E f Hin).
-  apply andb_true_iff in E as [E _]. exact E.
-Qed.
+Proof. exact C13_normal_form_proof. Qed.
 Print Assumptions C13_normal_form.
 
 (* ... regardless of the spelling: list, tuple or set, any order, any repetition give the same
@@ -50,11 +40,7 @@ Theorem C13_normal_form_set_spellings : forall E v1 v2 l1 l2,
   seq3 v1 l1 -> seq3 v2 l2 -> (forall x, In x l1 <-> In x l2) ->
   validate E (VCustom n_check_extensions) v1 = validate E (VCustom n_check_extensions) v2 /\
   validate E (VCustom n_check_fence_as_directive) v1 = validate E (VCustom n_check_fence_as_directive) v2.
-Proof.
-  intros E v1 v2 l1 l2 S1 S2 H. split.
-  - exact (check_extensions_spelling E v1 v2 l1 l2 S1 S2 H).
-  - exact (check_fence_spelling v1 v2 l1 l2 S1 S2 H).
-Qed.
+Proof. exact C13_normal_form_set_spellings_proof. Qed.
 Print Assumptions C13_normal_form_set_spellings.
 
 (* url_schemes: a list (or tuple) of names is the dict {name: None}; a str value is {"url": value} *)
@@ -65,19 +51,14 @@ Theorem C13_normal_form_url_spellings : forall E l k u, NoDup l ->
     = validate E (VCustom n_check_url_schemes) (JDict (map (fun s => (JStr s, JNull)) l)) /\
   validate E (VCustom n_check_url_schemes) (JDict [(JStr k, JStr u)])
     = validate E (VCustom n_check_url_schemes) (JDict [(JStr k, JDict [(JStr s_url, JStr u)])]).
-Proof.
-  intros E l k u ND. destruct (url_list_is_dict l ND) as [A B].
-  split; [exact A|]. split; [exact B|]. exact (url_str_is_dict k u).
-Qed.
+Proof. exact C13_normal_form_url_spellings_proof. Qed.
 Print Assumptions C13_normal_form_url_spellings.
 
 (* the constructor (and hence copy / the docutils and Sphinx entry points) returns a stable instance,
    so the premise [stable_cfg] below is met by every configuration the program can hold *)
 Theorem C13_constructor_gives_stable : forall imp kw c,
   mk_config (E_of imp) fields kw = Ok c -> stable_cfg (E_of imp) fields c.
-Proof.
-  intros imp kw c. apply mk_config_stable. vm_compute. reflexivity.
-Qed.
+Proof. exact C13_constructor_gives_stable_proof. Qed.
 Print Assumptions C13_constructor_gives_stable.
 
 (* front matter = global, for every field of the table (in particular every field that is not
@@ -102,9 +83,7 @@ Theorem C13_frontmatter_equals_global : forall imp c f v,
                                 copy (E_of imp) fields c [(f_name f, merged)] = Ok new
         else copy (E_of imp) fields c [(f_name f, v)] = Ok new
   end.
-Proof.
-  intros imp c f v S Hin. apply frontmatter_equals_global; try assumption; vm_compute; reflexivity.
-Qed.
+Proof. exact C13_frontmatter_equals_global_proof. Qed.
 Print Assumptions C13_frontmatter_equals_global.
 
 (* an invalid or unknown front-matter entry is ignored with exactly one warning: for any front
@@ -113,7 +92,7 @@ Theorem C13_invalid_ignored_once : forall E fs st st' ups,
   merge_loop E false fs st ups = Ok st' ->
   length (st_warn st') =
   (length (st_warn st) + length (filter (bad_update E fs (st_global st)) ups))%nat.
-Proof. intros E fs st st' ups. apply merge_loop_warnings. Qed.
+Proof. exact C13_invalid_ignored_once_proof. Qed.
 Print Assumptions C13_invalid_ignored_once.
 
 (* the global configuration is never modified by merging a document's front matter
@@ -130,9 +109,7 @@ Theorem C13_docutils_strings_equal : forall imp f s y, In f fields -> f_omit_doc
   docutils_config (E_of imp) optparse_rules fields [(f_name f, s, y)] =
   (do k <- optparse_kind optparse_rules f; do v <- decode k s y;
    mk_config (E_of imp) fields [(f_name f, v)]).
-Proof.
-  intros imp f s y Hin Om. apply docutils_one; try assumption. vm_compute. reflexivity.
-Qed.
+Proof. exact C13_docutils_strings_equal_proof. Qed.
 Print Assumptions C13_docutils_strings_equal.
 
 (* the decimal spelling of an int decodes to that int, and every spelling of docutils' boolean table
@@ -140,21 +117,13 @@ Print Assumptions C13_docutils_strings_equal.
 Theorem C13_docutils_int_roundtrip : forall n y,
   decode KInt (show n) y = Ok (JInt (Z.of_N n)) /\
   decode KInt (45 :: show n) y = Ok (JInt (- Z.of_N n)).
-Proof.
-  intros n y. destruct (int_roundtrip n) as [A B]. unfold decode. rewrite A, B. split; reflexivity.
-Qed.
+Proof. exact C13_docutils_int_roundtrip_proof. Qed.
 Print Assumptions C13_docutils_int_roundtrip.
 
 Theorem C13_docutils_bool_spellings : forall y,
   (forall s b, In (s, b) bool_table -> decode KBool s y = Ok (JBool b)) /\
   (forall s1 s2, lower_ascii (py_strip s1) = lower_ascii (py_strip s2) -> decode KBool s1 y = decode KBool s2 y).
-Proof.
-  intro y. split.
-  - intros s b Hin. pose proof (bool_spellings y) as H. rewrite forallb_forall in H.
-    specialize (H (s, b) Hin). cbn [fst snd] in H.
-    destruct (decode KBool s y) as [[]|]; try discriminate H. apply Bool.eqb_prop in H. subst. reflexivity.
-  - intros s1 s2. apply bool_decode_insensitive.
-Qed.
+Proof. exact C13_docutils_bool_spellings_proof. Qed.
 Print Assumptions C13_docutils_bool_spellings.
 
 (* which validator code the regenerated table reaches (bound: the fields and rules present):
@@ -168,10 +137,7 @@ Theorem C13_validator_code_reached :
   (forall k, In k all_ckinds -> combinator_used fields k = true) /\
   every_field_decided optparse_rules fields = true /\
   rules_reached optparse_rules fields = true.
-Proof.
-  split; [|split]; [|vm_compute; reflexivity|vm_compute; reflexivity].
-  apply forallb_forall. vm_compute. reflexivity.
-Qed.
+Proof. exact C13_validator_code_reached_proof. Qed.
 Print Assumptions C13_validator_code_reached.
 
 (* and the comma separated spelling of a list of clean items (non-empty, no comma, no blank at either
@@ -180,9 +146,7 @@ Theorem C13_docutils_comma_list : forall items y,
   Forall (fun p => clean_item p = true) items ->
   decode KCommaList (join [c_comma] items) y = Ok (JList (map JStr items)) /\
   decode KCommaSet (join [c_comma] items) y = Ok (mk_str_set (map JStr items)).
-Proof.
-  intros items y F. unfold decode. rewrite (comma_list_join items F). split; reflexivity.
-Qed.
+Proof. exact C13_docutils_comma_list_proof. Qed.
 Print Assumptions C13_docutils_comma_list.
 
 (* Sphinx conf.py values: create_myst_config passes every registered option explicitly (the conf value,
@@ -190,11 +154,7 @@ Print Assumptions C13_docutils_comma_list.
    constructor called with the conf values alone *)
 Theorem C13_sphinx_conf_equal : forall imp conf, conf_ok fields conf ->
   sphinx_config (E_of imp) fields conf = mk_config (E_of imp) fields conf.
-Proof.
-  intros imp conf CO.
-  destruct (mk_config (E_of imp) fields []) as [d|e] eqn:D; [|vm_compute in D; discriminate].
-  apply (sphinx_conf_equal (E_of imp) fields conf d); try assumption; vm_compute; reflexivity.
-Qed.
+Proof. exact C13_sphinx_conf_equal_proof. Qed.
 Print Assumptions C13_sphinx_conf_equal.
 
 (* ---- source-translation tie (round 3): statements about the definitions REGENERATED on every run from
@@ -203,7 +163,7 @@ Print Assumptions C13_sphinx_conf_equal.
    check_inventories / check_fence_as_directive / check_positive_int, and merge_file_level, statement by
    statement).  Refinement lemmas: Cfg/CfgSrcProofs.v; domain mapping of the atoms: gen/c13_src.py +
    Cfg/CfgSrcPrelude.v.  [validate_src] interprets a validator tree with the regenerated closures
-   (check_heading_slug_func, which calls importlib, stays the hand model). ---- *)
+   (all seven check_* functions; importlib in check_heading_slug_func is the oracle e_import). ---- *)
 
 Theorem C13_source_refines_model :
   (forall E e v, validate_src E e v = validate E e v) /\
@@ -213,17 +173,14 @@ Theorem C13_source_refines_model :
      | Ok st => Ok (st_new st, st_warn st)
      | Raise e => Raise e
      end).
-Proof. split; [exact validate_src_eq | exact merge_file_level_src_eq]. Qed.
+Proof. exact C13_source_refines_model_proof. Qed.
 Print Assumptions C13_source_refines_model.
 
 (* every field's validator, run with the regenerated validator code, accepts exactly the documented type *)
 Theorem C13_fields_match_types_src : forall imp f, In f fields ->
   exists t, doc_ty f = Some t /\
             forall v, is_ok (validate_src (E_of imp) (f_val f) v) = true <-> has_type (E_of imp) v t.
-Proof.
-  intros imp f Hin. destruct (C13_fields_match_types imp f Hin) as [t [D H]].
-  exists t. split; [exact D|]. intro v. rewrite validate_src_eq. apply H.
-Qed.
+Proof. exact C13_fields_match_types_src_proof. Qed.
 Print Assumptions C13_fields_match_types_src.
 
 (* front matter = global, for the regenerated merge_file_level and validators *)
@@ -241,10 +198,47 @@ Theorem C13_frontmatter_equals_global_src : forall imp c f v,
                                 copy (E_of imp) fields c [(f_name f, merged)] = Ok new
         else copy (E_of imp) fields c [(f_name f, v)] = Ok new
   end.
-Proof.
-  intros imp c f v S Hin. apply frontmatter_equals_global_src; try assumption; vm_compute; reflexivity.
-Qed.
+Proof. exact C13_frontmatter_equals_global_src_proof. Qed.
 Print Assumptions C13_frontmatter_equals_global_src.
+
+(* ---- sharing of container objects (round 4).  [copy_o] is [copy] with every stored object tagged by
+   its origin: the copied config's own object (OGlobal - dc.replace passes it on), a new object (OFresh - a
+   validator called setattr), or the caller's object (OArg). ---- *)
+
+(* copy_o is copy *)
+Theorem C13_copy_o_is_copy : forall E fs c changes r,
+  copy_o E fs c changes = Ok r -> copy E fs c changes = Ok (erase_o r).
+Proof. exact copy_o_is_copy. Qed.
+Print Assumptions C13_copy_o_is_copy.
+
+(* PARTIAL: a field whose validator always coerces (enable_extensions, fence_as_directive, url_schemes)
+   never shares its container with the config it was copied from - this is what keeps an in-place
+   write to the per-document config away from the global one *)
+Theorem C13_copy_shares_nothing_partial : forall imp c changes r f,
+  In f fields -> coercing (f_val f) = true ->
+  copy_o (E_of imp) fields c changes = Ok r -> shares_field (f_name f) r = false.
+Proof. exact C13_copy_shares_nothing_partial_proof. Qed.
+Print Assumptions C13_copy_shares_nothing_partial.
+
+(* the unrestricted statement "a copy shares no mutable container with the original" is false for the
+   faithful model: html_meta (and every other non-coercing list/dict option) is the same object in the
+   global and in the per-document config.  No code of the package writes to those containers in place
+   (next theorem), so the global config is not modified; recorded as an observation, not a finding. *)
+Theorem C13_copy_shares_refuted :
+  exists c r f,
+    let E := E_of (fun _ => ImpImportError) in
+    In f fields /\ copy_o E fields c [] = Ok r /\ shares_field (f_name f) r = true.
+Proof. exact C13_copy_shares_refuted_proof. Qed.
+Print Assumptions C13_copy_shares_refuted.
+
+(* every field whose container some code of the package mutates in place at run time (REGENERATED list
+   [inplace_written_fields]: today enable_extensions, by the figure-md directive) has a coercing validator,
+   hence a fresh container in every copy / per-document config (bound: the fields listed) *)
+Theorem C13_inplace_written_fields_fresh : forall n, In n inplace_written_fields ->
+  exists f, find_field n fields = Some f /\ coercing (f_val f) = true /\
+            forall imp c changes r, copy_o (E_of imp) fields c changes = Ok r -> shares_field n r = false.
+Proof. exact C13_inplace_written_fields_fresh_proof. Qed.
+Print Assumptions C13_inplace_written_fields_fresh.
 
 (* the code before the repair (raw value assigned after validation) did not have the property:
    front matter  myst: {url_schemes: [http]}  left a list where the global setting gives a dict *)
@@ -255,19 +249,7 @@ Theorem C13_frontmatter_raw_assignment_refuted :
     merge_file_level_gen E true fields c (top_of (f_name f) v)
       = Ok {| st_global := c; st_new := new; st_warn := [] |} /\
     copy E fields c [(f_name f, v)] <> Ok new.
-Proof.
-  pose (E := E_of (fun _ => ImpImportError)).
-  destruct (mk_config E fields []) as [c|] eqn:C; [|vm_compute in C; discriminate].
-  destruct (find_field s_url_schemes fields) as [f|] eqn:F; [|vm_compute in F; discriminate].
-  exists c, f, (JList [JStr [104;116;116;112]]).
-  destruct (merge_file_level_gen E true fields c (top_of (f_name f) (JList [JStr [104;116;116;112]])))
-    as [st|] eqn:M.
-  2:{ vm_compute in C. inv C. vm_compute in F. inv F. vm_compute in M. discriminate. }
-  vm_compute in C. inv C. vm_compute in F. inv F. vm_compute in M. inv M.
-  eexists. repeat split.
-  - vm_compute. tauto.
-  - vm_compute. discriminate.
-Qed.
+Proof. exact C13_frontmatter_raw_assignment_refuted_proof. Qed.
 Print Assumptions C13_frontmatter_raw_assignment_refuted.
 
 (* non-vacuity *)
